@@ -404,10 +404,6 @@ impl<'de, R: Read<'de>> Parser<R> {
         self.read.next()
     }
 
-    fn next_char_or_null(&mut self) -> Result<u8> {
-        Ok(self.next_char()?.unwrap_or(b'\x00'))
-    }
-
     /// Error caused by a byte from next_char().
     fn error(&mut self, reason: ErrorCode) -> Error {
         let pos = self.read.position();
@@ -548,6 +544,9 @@ impl<'de, R: Read<'de>> Parser<R> {
         };
         if ok {
             Ok(self.symbol_token(name))
+        } else if name.len() == 2 && self.peek()?.is_none() {
+            // Sign and dot at the very end of the input: the token may have been cut short.
+            Err(self.peek_error(ErrorCode::EofWhileParsingValue))
         } else {
             Err(self.peek_error(ErrorCode::InvalidNumber))
         }
@@ -916,8 +915,10 @@ impl<'de, R: Read<'de>> Parser<R> {
 
     fn expect_ident(&mut self, ident: &[u8]) -> Result<()> {
         for c in ident {
-            if Some(*c) != self.next_char()? {
-                return Err(self.error(ErrorCode::ExpectedSomeIdent));
+            match self.next_char()? {
+                Some(next) if next == *c => {}
+                Some(_) => return Err(self.error(ErrorCode::ExpectedSomeIdent)),
+                None => return Err(self.error(ErrorCode::EofWhileParsingValue)),
             }
         }
 
@@ -979,7 +980,10 @@ impl<'de, R: Read<'de>> Parser<R> {
                         let next = self.peek_or_null()?;
                         if next == 0 || is_delimiter(next) {
                             if !have_value {
-                                return Err(self.peek_error(ErrorCode::ExpectedSomeValue));
+                                return Err(match self.peek()? {
+                                    Some(_) => self.peek_error(ErrorCode::ExpectedSomeValue),
+                                    None => self.peek_error(ErrorCode::EofWhileParsingList),
+                                });
                             }
                             pair.set_cdr(self.expect_value()?);
                             match self.parse_whitespace()? {
@@ -1044,7 +1048,10 @@ impl<'de, R: Read<'de>> Parser<R> {
                         let next = self.peek_or_null()?;
                         if next == 0 || is_delimiter(next) {
                             if !have_value {
-                                return Err(self.peek_error(ErrorCode::ExpectedSomeValue));
+                                return Err(match self.peek()? {
+                                    Some(_) => self.peek_error(ErrorCode::ExpectedSomeValue),
+                                    None => self.peek_error(ErrorCode::EofWhileParsingList),
+                                });
                             }
                             let (cdr, cdr_meta) = self.expect_datum()?.into_inner();
                             pair.set_cdr(cdr);
@@ -1157,12 +1164,13 @@ impl<'de, R: Read<'de>> Parser<R> {
         match self.peek_or_null()? {
             b'#' => {
                 self.eat_char();
-                match self.next_char_or_null()? {
-                    b'b' => self.parse_radix_literal(2),
-                    b'o' => self.parse_radix_literal(8),
-                    b'd' => self.parse_radix_literal(10),
-                    b'x' => self.parse_radix_literal(16),
-                    _ => Err(self.peek_error(ErrorCode::InvalidNumber)),
+                match self.next_char()? {
+                    Some(b'b') => self.parse_radix_literal(2),
+                    Some(b'o') => self.parse_radix_literal(8),
+                    Some(b'd') => self.parse_radix_literal(10),
+                    Some(b'x') => self.parse_radix_literal(16),
+                    Some(_) => Err(self.peek_error(ErrorCode::InvalidNumber)),
+                    None => Err(self.peek_error(ErrorCode::EofWhileParsingValue)),
                 }
             }
             _ => self.parse_radix_literal(10),
@@ -1188,11 +1196,12 @@ impl<'de, R: Read<'de>> Parser<R> {
     fn parse_num_literal(&mut self, radix: u8, pos: bool) -> Result<Number> {
         let r = u64::from(radix);
         // There needs to be a leading digit (R7RS 7.1)
-        let first_digit = match self.next_char_or_null()? {
-            c @ b'0'..=b'9' => c - b'0',
-            c @ b'a'..=b'f' if radix > 10 => 10 + (c - b'a'),
-            c @ b'A'..=b'F' if radix > 10 => 10 + (c - b'A'),
-            _ => return Err(self.peek_error(ErrorCode::InvalidNumber)),
+        let first_digit = match self.next_char()? {
+            Some(c @ b'0'..=b'9') => c - b'0',
+            Some(c @ b'a'..=b'f') if radix > 10 => 10 + (c - b'a'),
+            Some(c @ b'A'..=b'F') if radix > 10 => 10 + (c - b'A'),
+            Some(_) => return Err(self.peek_error(ErrorCode::InvalidNumber)),
+            None => return Err(self.peek_error(ErrorCode::EofWhileParsingValue)),
         };
         if first_digit >= radix {
             return Err(self.peek_error(ErrorCode::InvalidNumber));
@@ -1324,7 +1333,10 @@ impl<'de, R: Read<'de>> Parser<R> {
         }
 
         if !at_least_one_digit {
-            return Err(self.peek_error(ErrorCode::InvalidNumber));
+            return Err(match self.peek()? {
+                Some(_) => self.peek_error(ErrorCode::InvalidNumber),
+                None => self.peek_error(ErrorCode::EofWhileParsingValue),
+            });
         }
 
         match self.peek_or_null()? {
@@ -1354,10 +1366,13 @@ impl<'de, R: Read<'de>> Parser<R> {
         };
 
         // Make sure a digit follows the exponent place.
-        let mut exp = match self.next_char_or_null()? {
-            c @ b'0'..=b'9' => i32::from(c - b'0'),
-            _ => {
+        let mut exp = match self.next_char()? {
+            Some(c @ b'0'..=b'9') => i32::from(c - b'0'),
+            Some(_) => {
                 return Err(self.error(ErrorCode::InvalidNumber));
+            }
+            None => {
+                return Err(self.error(ErrorCode::EofWhileParsingValue));
             }
         };
 
